@@ -957,7 +957,15 @@ pub fn run_c17(opts: &Opts, out: &mut Emitter) {
             // names the generated program itself gives to something else (an input block shadows a parameter of its
             // name: the body would not be using the parameter)
             let own = ["source", "collateral", "sender", "receiver", "feecap", "tokenpolicy", "quantity", "bonus", "unusedparam", "reg", "entries", "items"];
-            if own.contains(&name.as_str()) || name.starts_with("only") || name.starts_with("at") {
+            // words the grammar itself writes (`true` in an expression is the literal, not a parameter of that name):
+            // read from tx3.pest as it stands
+            let grammar_words: Vec<String> = std::fs::read_to_string(std::env::var("TX3_REPO").unwrap_or_else(|_| "/repo".to_string()) + "/crates/tx3-lang/src/tx3.pest")
+                .unwrap_or_default()
+                .split('"')
+                .filter(|w| !w.is_empty() && w.chars().all(|c| c.is_ascii_alphabetic() || c == '_'))
+                .map(|w| w.to_string())
+                .collect();
+            if own.contains(&name.as_str()) || name.starts_with("only") || name.starts_with("at") || grammar_words.contains(&name) {
                 programs.push(("generated".into(), interface_program(&mut r, false)));
                 continue;
             }
